@@ -62,7 +62,7 @@ Fixpoint map_option {A B : Type} (f : A -> option B) (l : list A) : option (list
 Definition getitem_gen {A : Type} (t : list A) (i : Z) : option A :=
   let n := Z.of_nat (List.length t) in
   if i <? 0 then (if i + n <? 0 then None else nth_error t (Z.to_nat (i + n)))
-  else nth_error t (Z.to_nat i).
+  else if i <? n then nth_error t (Z.to_nat i) else None.
 
 (* ---- writer ---- *)
 Fixpoint index_of (k : string) (l : list string) : option nat :=
@@ -147,7 +147,7 @@ Definition parse_seg (srcs names : list string) (p : pstate) (gcol : Z) (fs : li
           let scol := ps_scol p + scd in
           if spos <? 0 then None                    (* sp_conts[spos] on the empty list *)
           else
-            let source := nth_error srcs (Z.to_nat spos) in
+            let source := if spos <? Z.of_nat (List.length srcs) then nth_error srcs (Z.to_nat spos) else None in
             match nd, names with
             | d :: _, _ :: _ =>
                 let npos := ps_npos p + d in
